@@ -42,6 +42,8 @@ def sig(r):
     c = r.get('case')
     dev = ','.join(c.get('dev', [])) if isinstance(c, dict) else ''
     what = r.get('what', 'crash' if r.get('crash') else '?')
+    if r.get('route') == 'rows-with-header':      # this route writes the names as ordinary fields: the raw-header deviation does not apply to it
+        return {'dev': '', 'what': what, 'route': 'rows-with-header', 'case': case_key(c)}
     if dev:
         return {'dev': dev, 'what': what}
     return {'dev': '', 'what': what, 'case': case_key(c)}      # flavour / route stay in the detail
